@@ -275,8 +275,15 @@ def compare_sorted_with_multiplicity(got, ref_sorted, rtol_of, k_limited=True, d
             return 'wrong', {'why': 'a smaller reference value was skipped', 'skipped': lo,
                              'next_returned': got[gi] if gi < len(got) else None}
         if cnt < len(cl) and gi < len(got):
-            if abs(hi - lo) > degenerate_rtol * abs(hi) * len(cl):
-                return 'wrong', {'why': 'reference values are missing', 'near': lo, 'returned': cnt, 'reference_count': len(cl)}
+            # the cluster was merged by the comparison tolerance; inside it, values closer than degenerate_rtol are
+            # copies of one degenerate value.  Every distinct value must be represented; missing copies are 'undercount'.
+            distinct = 1
+            for a, b in zip(cl[:-1], cl[1:]):
+                if abs(b - a) > degenerate_rtol * abs(b):
+                    distinct += 1
+            if cnt < distinct:
+                return 'wrong', {'why': 'reference values are missing', 'near': lo, 'returned': cnt, 'reference_count': len(cl),
+                                 'distinct_reference_values': distinct}
             under.append({'value': lo, 'returned': cnt, 'multiplicity': len(cl)})
     if gi < len(got):
         return 'wrong', {'why': 'more values returned than the reference has', 'extra': got[gi:gi + 3]}
